@@ -6,6 +6,7 @@ package main
 
 import (
 	"fmt"
+	"go/ast"
 	"go/token"
 	"go/types"
 	"math"
@@ -48,6 +49,8 @@ var redirects = map[string]string{
 	"(*github.com/nats-io/nats.go.Conn).PublishRequest":      "verifNatsPublishRequest",
 	"(*github.com/nats-io/nats.go.Conn).Subscribe":           "verifNatsSubscribe",
 	"(*github.com/nats-io/nats.go.Conn).QueueSubscribe":      "verifNatsQueueSubscribe",
+	"(*github.com/nats-io/nats.go.Conn).ChanQueueSubscribe":  "verifNatsChanQueueSubscribe",
+	"(*github.com/nats-io/nats.go.Conn).ChanSubscribe":       "verifNatsChanSubscribe",
 	"(*github.com/nats-io/nats.go.Conn).Flush":               "verifNatsFlush",
 	"(*github.com/nats-io/nats.go.Conn).FlushTimeout":        "verifNatsFlushTimeout",
 	"(*github.com/nats-io/nats.go.Conn).Barrier":             "verifNatsBarrier",
@@ -65,6 +68,14 @@ var redirects = map[string]string{
 	"github.com/nats-io/nuid.Next":                           "verifNuidNext",
 	"(*net/http.Client).Do":                                  "verifHTTPDo",
 	"github.com/Workiva/frugal/compiler/parser.ParseFrugal":  "verifParseFrugal",
+}
+
+// library types the harnesses replace by a zero value plus redirected methods
+var modelledReceivers = []string{
+	"(*github.com/nats-io/nats.go.Conn)",
+	"(*github.com/nats-io/nats.go.Subscription)",
+	"(*github.com/go-stomp/stomp.Conn)",
+	"(*github.com/go-stomp/stomp.Subscription)",
 }
 
 // packages all of whose functions are no-ops returning zero values
@@ -92,6 +103,18 @@ func lookupIntrinsic(fn *ssa.Function) externalFn {
 		if target, ok := redirects[name]; ok {
 			if hf := I.harnessPkg.Func(target); hf != nil {
 				f = func(fr *frame, args []value) value { return callSSA(fr, hf, args, nil) }
+			}
+		}
+	}
+	if f == nil && fn.Signature.Recv() != nil && ast.IsExported(fn.Name()) {
+		// the harness stands in for this library type with a zero value and models a fixed set of its
+		// methods; any other method would run the library's real code on that zero value, which says
+		// nothing about the code under test: the run is inconclusive, not a finding
+		for _, recv := range modelledReceivers {
+			if strings.HasPrefix(name, recv+".") {
+				f = func(fr *frame, args []value) value {
+					panic(engineErr{"library method " + name + " is outside the environment model (zz_verif_nats.go / stomp model)"})
+				}
 			}
 		}
 	}
@@ -387,6 +410,7 @@ func init() {
 			R.wgs[p] = w
 		}
 		schedPoint("WaitGroup.Add")
+		R.raceRelease(w)
 		w.n += asInt64(concValue(a[1], "wg.Add"))
 		if w.n < 0 {
 			panic(targetPanic{iface{types.Typ[types.String], "sync: negative WaitGroup counter"}})
@@ -400,6 +424,9 @@ func init() {
 		p := ptrArg(a[0])
 		schedPoint("WaitGroup.Wait")
 		blockUntil(func() bool { w := R.wgs[p]; return w == nil || w.n == 0 }, "WaitGroup.Wait in "+shortName(callerName(fr)))
+		if w := R.wgs[p]; w != nil {
+			R.raceAcquire(w)
+		}
 		return nil
 	}
 	intrinsics["(*sync.Once).Do"] = func(fr *frame, a []value) value {
@@ -412,10 +439,11 @@ func init() {
 		schedPoint("Once.Do")
 		blockUntil(func() bool { return !o.running }, "Once.Do")
 		if o.done {
+			R.raceAcquire(o)
 			return nil
 		}
 		o.running = true
-		defer func() { o.running = false; o.done = true }()
+		defer func() { o.running = false; o.done = true; R.raceRelease(o) }()
 		call(fr, token.NoPos, a[1], nil)
 		return nil
 	}
@@ -427,6 +455,7 @@ func init() {
 			if R.choose("sel", "sync.Pool.Get", make([]*Term, 2)) == 0 {
 				it := items[len(items)-1]
 				R.pools[p] = items[:len(items)-1]
+				R.raceAcquire(p)
 				return it
 			}
 		}
@@ -443,6 +472,7 @@ func init() {
 			R.pools = map[*value][]value{}
 		}
 		R.pools[p] = append(R.pools[p], a[1])
+		R.raceRelease(p)
 		return nil
 	}
 
@@ -456,23 +486,27 @@ func init() {
 		intrinsics["sync/atomic.Add"+k.name] = func(fr *frame, a []value) value {
 			p := ptrArg(a[0])
 			schedPoint("atomic.Add")
+			R.raceSync(p)
 			*p = binop(token.ADD, typ, *p, a[1])
 			return *p
 		}
 		intrinsics["sync/atomic.Load"+k.name] = func(fr *frame, a []value) value {
 			p := ptrArg(a[0])
 			schedPoint("atomic.Load")
+			R.raceSync(p)
 			return *p
 		}
 		intrinsics["sync/atomic.Store"+k.name] = func(fr *frame, a []value) value {
 			p := ptrArg(a[0])
 			schedPoint("atomic.Store")
+			R.raceSync(p)
 			*p = a[1]
 			return nil
 		}
 		intrinsics["sync/atomic.Swap"+k.name] = func(fr *frame, a []value) value {
 			p := ptrArg(a[0])
 			schedPoint("atomic.Swap")
+			R.raceSync(p)
 			old := *p
 			*p = a[1]
 			return old
@@ -480,6 +514,7 @@ func init() {
 		intrinsics["sync/atomic.CompareAndSwap"+k.name] = func(fr *frame, a []value) value {
 			p := ptrArg(a[0])
 			schedPoint("atomic.CAS")
+			R.raceSync(p)
 			if truth(eqv(typ, *p, a[1]), "atomic.CAS") {
 				*p = a[2]
 				return true
@@ -495,14 +530,21 @@ func init() {
 		intrinsics[tn+"Add"] = func(fr *frame, a []value) value {
 			p := cell(a)
 			schedPoint("atomic.Add")
+			R.raceSync(p)
 			*p = binop(token.ADD, typ, *p, a[1])
 			return *p
 		}
-		intrinsics[tn+"Load"] = func(fr *frame, a []value) value { schedPoint("atomic.Load"); return *cell(a) }
-		intrinsics[tn+"Store"] = func(fr *frame, a []value) value { schedPoint("atomic.Store"); *cell(a) = a[1]; return nil }
+		intrinsics[tn+"Load"] = func(fr *frame, a []value) value { schedPoint("atomic.Load"); R.raceSync(cell(a)); return *cell(a) }
+		intrinsics[tn+"Store"] = func(fr *frame, a []value) value {
+			schedPoint("atomic.Store")
+			R.raceSync(cell(a))
+			*cell(a) = a[1]
+			return nil
+		}
 		intrinsics[tn+"Swap"] = func(fr *frame, a []value) value {
 			p := cell(a)
 			schedPoint("atomic.Swap")
+			R.raceSync(p)
 			old := *p
 			*p = a[1]
 			return old
@@ -510,6 +552,7 @@ func init() {
 		intrinsics[tn+"CompareAndSwap"] = func(fr *frame, a []value) value {
 			p := cell(a)
 			schedPoint("atomic.CAS")
+			R.raceSync(p)
 			if truth(eqv(typ, *p, a[1]), "atomic.CAS") {
 				*p = a[2]
 				return true
@@ -523,10 +566,12 @@ func init() {
 	}
 	intrinsics["(*sync/atomic.Bool).Load"] = func(fr *frame, a []value) value {
 		schedPoint("atomic.Load")
+		R.raceSync(boolCell(a))
 		return truth(binop(token.NEQ, types.Typ[types.Uint32], *boolCell(a), uint32(0)), "atomic.Bool")
 	}
 	intrinsics["(*sync/atomic.Bool).Store"] = func(fr *frame, a []value) value {
 		schedPoint("atomic.Store")
+		R.raceSync(boolCell(a))
 		if truth(a[1], "atomic.Bool") {
 			*boolCell(a) = uint32(1)
 		} else {
@@ -537,6 +582,7 @@ func init() {
 	// atomic.Value: keep the stored interface beside the struct
 	intrinsics["(*sync/atomic.Value).Load"] = func(fr *frame, a []value) value {
 		schedPoint("atomic.Value.Load")
+		R.raceSync(ptrArg(a[0]))
 		if v, ok := R.atomicVals[ptrArg(a[0])]; ok {
 			return v
 		}
@@ -544,6 +590,7 @@ func init() {
 	}
 	intrinsics["(*sync/atomic.Value).Store"] = func(fr *frame, a []value) value {
 		schedPoint("atomic.Value.Store")
+		R.raceSync(ptrArg(a[0]))
 		R.atomicVals[ptrArg(a[0])] = a[1]
 		return nil
 	}
